@@ -158,8 +158,12 @@ def run_impl(case, dtypes=None, gdtype=None):
     impl.reset_modes()
     ops = case["operands"]
     dts = dtypes or [np.float64] * len(ops)
-    tensors = [sg.Tensor(np.array(o, dtype=dt), requires_grad=True) for o, dt in zip(ops, dts)]
-    info = {"tensors": tensors}
+    if case.get("dup"):      # the same Tensor object for every operand
+        t0 = sg.Tensor(np.array(ops[0], dtype=dts[0]), requires_grad=True)
+        tensors = [t0] * len(ops)
+    else:
+        tensors = [sg.Tensor(np.array(o, dtype=dt), requires_grad=True) for o, dt in zip(ops, dts)]
+    info = {"tensors": tensors[:1] if case.get("dup") else tensors}
     try:
         out = forward_impl(case, tensors)
     except Exception as ex:
@@ -174,7 +178,7 @@ def run_impl(case, dtypes=None, gdtype=None):
         for o, g in zip(outs, gs):
             o.backward(sg.Tensor(np.array(g, dtype=gdtype or np.float64)))
         grads = []
-        for t in tensors:
+        for t in (tensors[:1] if case.get("dup") else tensors):
             grads.append(t._grad if t._grad is not None else np.zeros(t.shape))
         info["grads"] = grads
     except Exception as ex:
@@ -184,6 +188,8 @@ def run_impl(case, dtypes=None, gdtype=None):
 
 
 def coq_case(case, gs):
+    if case.get("dup"):
+        return "KDup (%s)" % coq_case({k: v for k, v in case.items() if k != "dup"}, gs)
     op = case["op"]
     ops = case["operands"]
     a = case.get("args", {})
@@ -209,6 +215,8 @@ def coq_case(case, gs):
 def describe(case):
     np = _impl().np
     d = {"op": case["op"], "shapes": [list(np.asarray(o).shape) for o in case["operands"]]}
+    if case.get("dup"):
+        d["dup"] = True
     if case.get("args"):
         d["args"] = {k: (list(v) if isinstance(v, tuple) else v) for k, v in case["args"].items()}
     return d
@@ -228,7 +236,7 @@ def case_from_json(d):
     if isinstance(args.get("dim"), list):
         args["dim"] = tuple(args["dim"])
     ops = [np.array(o, dtype=np.float64).reshape(s) for o, s in zip(d["operands"], d["shapes"])]
-    return {"op": d["op"], "operands": ops, "args": args, "gseed": d.get("gseed", 1)}
+    return {"op": d["op"], "operands": ops, "args": args, "gseed": d.get("gseed", 1), "dup": d.get("dup", False)}
 
 
 # ------------------------------------------------------------------------------------------------
@@ -244,15 +252,23 @@ def dim_forms(n, all_tuples=True):
     return forms
 
 
+def cap(ctx, must, rest, n):
+    """quick tier: all of `must` plus a seeded sample of `rest` up to n cases; thorough: everything"""
+    if not ctx.quick or len(must) + len(rest) <= n:
+        return must + rest
+    k = max(0, n - len(must))
+    idx = sorted(ctx.rng.sample(range(len(rest)), min(k, len(rest))))
+    return must + [rest[i] for i in idx]
+
+
 def gen_broadcast_pairs(ctx, dat, op):
-    cases = []
+    must, rest = [], []
     shs = shapes_upto(3)
     for i, sa in enumerate(shs):
         for j, sb in enumerate(shs):
-            if ctx.quick and op == "mul" and len(sa) == 3 and len(sb) == 3 and (i + j) % 2:
-                continue
-            cases.append({"op": op, "operands": [dat.arr(sa), dat.arr(sb)], "gseed": 7 * i + j})
-    return cases
+            c = {"op": op, "operands": [dat.arr(sa), dat.arr(sb)], "gseed": 7 * i + j}
+            (must if (len(sa) <= 2 and len(sb) <= 2 and op == "add") else rest).append(c)
+    return cap(ctx, must, rest, 760 if op == "add" else 400)
 
 
 def gen_unbroadcast(ctx, dat):
@@ -267,15 +283,17 @@ def gen_unbroadcast(ctx, dat):
 
 def gen_reductions(ctx, dat):
     cases = []
+    must, rest = [], []
     seed = 0
     for sh in shapes_upto(3):
         n = len(sh)
-        rich = (n < 3) or (not ctx.quick) or sh in ((1, 2, 3), (3, 1, 2), (2, 3, 2), (2, 1, 3), (3, 3, 3))
+        rich = True
+        cases = must if (n <= 1 or sh in ((2, 3), (3, 1)) ) else rest
         forms = dim_forms(n, all_tuples=rich)
         bad = [n, -n - 1, (0, 0) if n else (0,), (n,), (0, -n) if n else (-1,)]
         for op in ("sum", "mean", "max", "min"):
             for dim in forms + bad:
-                if op in ("max", "min") and isinstance(dim, tuple) and len(dim) > 1 and not rich:
+                if op in ("max", "min") and isinstance(dim, tuple) and len(dim) > 1 and (len(cases) % 6):
                     continue
                 for kd in (False, True):
                     seed += 1
@@ -286,8 +304,8 @@ def gen_reductions(ctx, dat):
     # zero-size fibre / output
     for sh, dim in (((0, 3), 0), ((0, 3), 1), ((2, 0), 0), ((0, 0), 0), ((0, 3), None)):
         for op in ("sum", "max", "min"):
-            cases.append({"op": op, "operands": [dat.arr(sh)], "args": {"dim": dim, "keepdims": False}, "gseed": 3})
-    return cases
+            must.append({"op": op, "operands": [dat.arr(sh)], "args": {"dim": dim, "keepdims": False}, "gseed": 3})
+    return cap(ctx, must, rest, 3000)
 
 
 def gen_matmul(ctx, dat):
@@ -336,12 +354,14 @@ def gen_addmm_linear(ctx, dat):
 
 
 def gen_concat_family(ctx, dat):
+    return cap(ctx, [], gen_concat_family_all(ctx, dat), 760)
+
+
+def gen_concat_family_all(ctx, dat):
     rng = ctx.rng
     cases = []
     seed = 0
     base_shapes = [s for s in shapes_upto(3) if len(s) >= 1]
-    if ctx.quick:
-        base_shapes = [s for s in base_shapes if len(s) < 3 or len(set(s)) >= 2][:40]
     for sh in base_shapes:
         n = len(sh)
         for dim in list(range(-n, n)) + [n, -n - 1]:
@@ -385,6 +405,38 @@ def gen_overloads(ctx, dat):
     return cases
 
 
+def gen_same_operand(ctx, dat):
+    """the same Tensor object passed for every operand: every closure must accumulate (+=) into the one buffer"""
+    cases = []
+    seed = 0
+
+    def add(op, sh, k, args=None, lo=-9, hi=9):
+        nonlocal seed
+        seed += 1
+        x = dat.arr(sh, lo=lo, hi=hi)
+        c = {"op": op, "operands": [x] * k, "gseed": seed, "dup": True}
+        if args:
+            c["args"] = args
+        cases.append(c)
+    for sh in [(), (3,), (2, 3), (1, 2), (2, 1, 3)]:
+        add("add", sh, 2)
+        add("mul", sh, 2)
+    for sh in [(2, 2), (3, 3), (2, 3, 3), (1, 2, 2)]:
+        add("matmul", sh, 2)
+        add("addmm", sh, 3)
+        if len(sh) == 2:
+            add("linear", sh, 2)
+            add("linear", sh, 3)
+    for sh in [(2,), (2, 3), (1, 2, 2)]:
+        for dim in range(-len(sh), len(sh)):
+            add("concat", sh, 2, {"dim": dim})
+            add("concat", sh, 3, {"dim": dim})
+        for dim in range(-len(sh) - 1, len(sh) + 1):
+            add("stack", sh, 2, {"dim": dim})
+            add("stack", sh, 3, {"dim": dim})
+    return cases
+
+
 # ------------------------------------------------------------------------------------------------
 # Coq evaluation of a stream of cases
 HEADER = ("From Coq Require Import List ZArith QArith Bool.\nImport ListNotations.\n"
@@ -423,6 +475,9 @@ def coq_compare(ctx, tag, rows, runner="run", eqb="res_eqb", typ="acase * res", 
 # oracle (independent of the Coq model)
 def _torch():
     import torch
+    if not getattr(_torch, "done", False):
+        torch.set_num_threads(1)
+        _torch.done = True
     return torch
 
 
@@ -592,9 +647,14 @@ def fd_grads(case, info):
     op = case["op"]
     h = MEAN_UNIT if op == "mean" else (0.25 if op in ("max", "min") else 1.0)
 
+    dup = case.get("dup")
+    if dup:
+        ops = ops[:1]
+
     def L(arrs):
         with sg.no_grad():
-            out = forward_impl(case, [sg.Tensor(x) for x in arrs])
+            ts_ = [sg.Tensor(x) for x in arrs]
+            out = forward_impl(case, ts_ * len(case["operands"]) if dup else ts_)
         outs = list(out) if isinstance(out, (tuple, list)) else [out]
         return sum(float(np.sum(np.asarray(o.data, dtype=np.float64) * g)) for o, g in zip(outs, gs))
     res = []
@@ -615,10 +675,14 @@ def fd_grads(case, info):
 def torch_grads(case, info):
     T = _torch()
     ts = [T.tensor(_impl().np.array(o, dtype="float64"), requires_grad=True) for o in case["operands"]]
+    if case.get("dup"):
+        ts = ts[:1] * len(ts)
     out = ref_forward(case, ts, torch_mode=True)
     outs = list(out) if isinstance(out, (tuple, list)) else [out]
     loss = sum((o * T.tensor(g).reshape(o.shape)).sum() for o, g in zip(outs, info["gs"]))
     loss.backward()
+    if case.get("dup"):
+        ts = ts[:1]
     return [t.grad.numpy() if t.grad is not None else _impl().np.zeros(tuple(t.shape)) for t in ts]
 
 
@@ -778,9 +842,9 @@ KINDS_BY_PID = {"C01": ("backward-raises", "grad-value", "grad-not-a-subgradient
                 "C14": ()}
 
 
-def report(ctx, verdicts):
+def report(ctx, verdicts, pid=None):
     seen = set()
-    kinds = KINDS_BY_PID.get(ctx.pid)
+    kinds = KINDS_BY_PID.get(pid or ctx.pid)
     for case, v in verdicts:
         if kinds is not None and v["kind"] not in kinds:
             continue
@@ -1025,24 +1089,27 @@ STREAMS = [
     ("addmm-linear", gen_addmm_linear, False, "addmm with broadcast a and batched b, c; linear with 1-D..4-D x, bias None/(out,)/(1,out)/0-d/wrong"),
     ("concat-stack-unbind", gen_concat_family, False, "1-3 operands of differing sizes along every dim in [-n,n) and out of range; mismatched shapes/ranks, 0-d"),
     ("overloads", gen_overloads, False, "t+c, c+t, t-c, c-t, t*c, c*t, -t with Python scalars"),
+    ("same-operand", gen_same_operand, False, "x+x, x*x, x@x, addmm(x,x,x), linear(x,x[,x]), concat/stack([x,x[,x]]): one buffer receives every contribution"),
 ]
-BY_PID = {"C01": ["add", "mul", "reductions", "matmul", "addmm-linear", "concat-stack-unbind", "overloads", "unb"],
+BY_PID = {"C01": ["add", "mul", "reductions", "matmul", "addmm-linear", "concat-stack-unbind", "overloads", "same-operand", "unb"],
           "C05": ["add", "reductions", "matmul", "addmm-linear", "concat-stack-unbind", "overloads", "divq", "dimtypes"],
           "C10": ["unb", "c10", "mul"],
           "C14": ["c14", "addmm-linear", "divq", "overloads"]}
 
 
-def run_part(ctx, parts=None):
-    """entry point for the registered checks of C01 / C05 / C10 / C14"""
+def run_part(ctx, parts=None, as_pid=None):
+    """entry point for the registered checks of C01 / C05 / C10 / C14 (as_pid: act as that property's part)"""
     dat = Data(ctx.rng)
-    props = PROPS.get(ctx.pid)
+    pid = as_pid or ctx.pid
+    ctx.extra["algebra_part_of"] = pid
+    props = PROPS.get(pid)
     if props and os.path.exists(os.path.join(common.COQ, props)):
         ctx.build_props(props_rel=props, extra_targets=MODEL_VO)
     else:
         ok, log = common.coq_make(["Base/Cmp.vo"] + MODEL_VO)
         if not ok:
             ctx.broken.append({"kind": "proof", "what": "build of the E2 models failed", "detail": log[-800:]})
-    parts = parts or BY_PID.get(ctx.pid) or [s[0] for s in STREAMS] + ["unb", "divq", "c10", "c14", "dimtypes"]
+    parts = parts or BY_PID.get(pid) or [s[0] for s in STREAMS] + ["unb", "divq", "c10", "c14", "dimtypes"]
     verdicts = []
     for name, gen, exhaustive, note in STREAMS:
         if name in parts:
@@ -1059,7 +1126,7 @@ def run_part(ctx, parts=None):
         part_c14(ctx, dat)
     if "dimtypes" in parts:
         part_dim_types(ctx)
-    report(ctx, verdicts)
+    report(ctx, verdicts, pid)
     ctx.extra.setdefault("algebra_oracle_verdicts", 0)
     ctx.extra["algebra_oracle_verdicts"] += len(verdicts)
 
